@@ -1221,6 +1221,8 @@ def oracle_roundtrip(a):
         return None  # no format: not a supported combination
     if isinstance(val, bytes) and member is not None:
         return None  # enumerations of binary values: not judged
+    if member is not None and isinstance(val, Decimal) and val.is_nan():
+        return None  # Decimal NaN is not equal to itself: such a member can never be looked up by value
     if any(k == "" for k, _ in (kw.get("ns_map") or [])):
         return None  # xsdata's maps use None for the default namespace, never ""
     if isinstance(val, tuple) and any(isinstance(x, (bytes, QName)) for x in val):
